@@ -51,7 +51,13 @@ def run_case(c):
         ev = {"k": "uniform", "case": c, "raised": False, "lo": c["lo"], "hi": c["hi"], "n": c["n"], "endpoint": c["endpoint"],
               "vals": [], "w": []}
         try:
-            d = D.uniform(F(c["lo"]), F(c["hi"]), c["n"], endpoint=c["endpoint"])
+            # argument forms (NumPy scalars / 0-d arrays) and object routes (copy / deepcopy / pickle): same distribution
+            from ..forms import reform
+            from ..routes import reroute
+            fk = c["n"] + c["lo"][0] + 3 * c["hi"][0]
+            fm = lambda v, i: reform(v, (fk + i) % 3)
+            d = D.uniform(fm(F(c["lo"]), 0), fm(F(c["hi"]), 1), fm(c["n"], 2) if (fk + 2) % 3 != 2 else c["n"], endpoint=c["endpoint"])
+            d = reroute(d, fk)[0]
             ev["vals"], ev["w"] = rl(d.values), rl(d.weights)
             ok = allexact(d.values)
             evs.append(ev)
@@ -67,7 +73,12 @@ def run_case(c):
                   "n": c["n"], "vals": [], "profile_ppb": 0, "norm_ppb": 0}
             try:
                 cen, s, L = F(c["c"]), F(c["sigma"]), F(c["limit"])
-                g = D.gaussian(s, c["n"], dimension=dim, center=cen, sampling_limit=L, normalize=c["normalize"])
+                from ..forms import reform
+                from ..routes import reroute
+                fk = c["n"] + c["c"][0] + 3 * c["sigma"][0] + dim
+                fm = lambda v, i: reform(v, (fk + i) % 2)          # as given / NumPy scalar
+                g = D.gaussian(fm(s, 0), c["n"], dimension=dim, center=fm(cen, 1), sampling_limit=fm(L, 2), normalize=c["normalize"])
+                g = reroute(g, fk)[0]
                 for d in g.distributions:
                     e2 = dict(ev)
                     v, w = np.asarray(d.values, float), np.asarray(d.weights, float)
